@@ -55,7 +55,7 @@ let handle (line : string) : string =
   | ["enc"; flags; ck; t; v] ->
       let b i = flags.[i] = '1' in
       let o = { o_tags = b 0; o_exact = b 1; o_nest = b 2; o_omitnil = b 3; o_omitempty = b 4;
-                o_ck = (if ck = "-" then None else Some (bytes_of_hex ck)); o_decomp = b 5; o_tagexact = b 6 } in
+                o_ck = (if ck = "-" then None else Some (bytes_of_hex ck)); o_decomp = b 5; o_tagexact = b 6; o_derefempty = b 7 } in
       string_of_bytes (model_enc o (parse_ty { s = t; i = 0 }) (parse_gv { s = v; i = 0 }))
   | ["match"; eq; data] ->
       let e = parse_eqn { s = eq; i = 0 } in
